@@ -167,6 +167,15 @@ pub fn single_mutations(base: &[Token], pool: &Pool, r: &mut Rng, full: bool) ->
             out.push(Mutant { kind, fields: f, at: pos });
         }
     }
+    // a line longer than any documented line (no field allows more than 78 characters per line)
+    for pos in 0..n {
+        let mut f = base.to_vec();
+        let mut lines: Vec<String> = f[pos].content.split('\n').map(|x| x.to_string()).collect();
+        let k = lines.len() - 1;
+        lines[k].push_str(&"X".repeat(80));
+        f[pos].content = lines.join("\n");
+        out.push(Mutant { kind: "line-too-long", fields: f, at: pos });
+    }
     // more lines than any documented maximum
     for pos in 0..n {
         let mut f = base.to_vec();
